@@ -7,58 +7,58 @@ V = os.path.dirname(os.path.dirname(os.path.abspath(__file__)))
 
 # property -> (built?, technique, level text, level note, design ref)
 P = {
- "C01": ("Coq proof: treap model (split/join/union/insert/delete/lookup/min/max/totals) refines a strictly sorted association list, lifted over operation lists (Store.run); correspondence: extracted model + sorted-map reference vs implementation on seeded histories",
+ "C01": ("Coq proof: treap model (split/join/union/insert/delete/lookup/min/max/totals) refines a strictly sorted association list, lifted over operation lists (Store.run); correspondence: extracted model + sorted-map reference vs implementation on seeded histories; the decisions, call orders and call sites of the source that the model rests on are proved from function bodies regenerated from the Go source on every run (Dec*.v)",
          "Theorems (Props/C01.v) hold for every comparator satisfying the laws, every tree and every operation list; the model is tied to the Go code by running the extracted Store.run and the implementation on the same histories (every return value compared).",
          "Model is hand-written Gallina following treap.go/collection.go; the cache (lazy loading, eviction) is exercised on the implementation, not modelled in Store.v; toBa/*Any wrappers not modelled."),
- "C02": ("Coq proof: the byte-level store DStore (Flush = appended records, re-open = independent decoder, FlushRevert = backward scan + truncate) refines the abstract store with a stack of flushed states over whole histories (dstore_refines_store_exact), plus the one-step flush/decode round trip; tie: byte-exact (length + MD5) comparison of the predicted file with the implementation's file after every Flush / FlushRevert / re-open, a fresh Store on a copy of the image after every step vs the reference, and the boolean hypothesis history_ok evaluated on every generated history",
+ "C02": ("Coq proof: the byte-level store DStore (Flush = appended records, re-open = independent decoder, FlushRevert = backward scan + truncate) refines the abstract store with a stack of flushed states over whole histories (dstore_refines_store_exact), plus the one-step flush/decode round trip; tie: byte-exact (length + MD5) comparison of the predicted file with the implementation's file after every Flush / FlushRevert / re-open, a fresh Store on a copy of the image after every step vs the reference, and the boolean hypothesis history_ok evaluated on every generated history; the decisions, call orders and call sites of the source that the model rests on are proved from function bodies regenerated from the Go source on every run (Dec*.v)",
          "Theorem over all operation lists meeting a boolean side condition that is evaluated on every run (hypothesis monitoring); every step of every history re-opens a copy of the image.",
          "encoding/json modelled for canonical output and ASCII names (names that are not valid UTF-8: known limitation D6); in-memory StoreFile."),
- "C03": ("Coq proof: backward root scan finds the greatest valid root end; any prefix/cut/junk of a disciplined append sequence recovers the previous root; correspondence: crash images rebuilt from the implementation's write log (every write boundary, byte cuts, junk) re-opened and compared",
+ "C03": ("Coq proof: backward root scan finds the greatest valid root end; any prefix/cut/junk of a disciplined append sequence recovers the previous root; correspondence: crash images rebuilt from the implementation's write log (every write boundary, byte cuts, junk) re-opened and compared; the decisions, call orders and call sites of the source that the model rests on are proved from function bodies regenerated from the Go source on every run (Dec*.v)",
          "Theorem quantifies over all files, all append sequences of the stated shape, all cut points and junk; the implementation's write log is checked against the discipline and thousands of crash images per run are opened.",
          "Go's encoding/json accepts more than the model's JSON decoder; junk that only Go accepts as a root is outside the model."),
- "C04": ("Coq proof: multi-handle store model MStore (original + snapshots, snapshots of snapshots, closes in any order): what an open snapshot answers is a function of the state at its creation for every operation list (snapshot_isolated), mutations through it are refused; version/recycling protocol model (Proto.v: a pinned version's cells are never freed and its tree never changes); tie: extracted MStore.mrun vs implementation on every history, contents of every open snapshot after every step, heap-dump invariants",
+ "C04": ("Coq proof: multi-handle store model MStore (original + snapshots, snapshots of snapshots, closes in any order): what an open snapshot answers is a function of the state at its creation for every operation list (snapshot_isolated), mutations through it are refused; version/recycling protocol model (Proto.v: a pinned version's cells are never freed and its tree never changes); tie: extracted MStore.mrun vs implementation on every history, contents of every open snapshot after every step, heap-dump invariants; the decisions, call orders and call sites of the source that the model rests on are proved from function bodies regenerated from the Go source on every run (Dec*.v)",
          "Isolation proved for every operation list on the multi-handle model and for every action sequence of the protocol model; every history step re-reads the original and every open snapshot against frozen reference maps and the extracted model.",
          "FlushRevert on the original while snapshots are open is outside the property's listed operations (it truncates bytes a snapshot may need) and is not generated."),
  "C05": ("Coq proof: protocol invariant over every interleaving of atomic pin/build/cas/unpin actions (Proto.v) and lock-order facts over the regenerated call graph; tie: concurrent runs (1 mutator, 1 flusher, N readers) with reader results checked against the published versions",
          "Partial: the theorem is about atomic actions at lock granularity; Go memory-model effects inside a phase are only reached by stress runs (testing).",
          "Go scheduler, memory model, unsynchronised cache fields are outside the model; race detector is not an oracle."),
- "C06": ("Coq proof: visit (ascending/descending, early stop, depth) delivers exactly the first j+1 items of the requested range of the sorted list with true depths; differential: delivered sequences vs reference and model, depths vs the implementation's own tree",
+ "C06": ("Coq proof: visit (ascending/descending, early stop, depth) delivers exactly the first j+1 items of the requested range of the sorted list with true depths; differential: delivered sequences vs reference and model, depths vs the implementation's own tree; the decisions, call orders and call sites of the source that the model rests on are proved from function bodies regenerated from the Go source on every run (Dec*.v)",
          "Theorem covers every tree, comparator, target, stop position; ties to code via extracted model on seeded contents x targets x modes x stops x cache states.",
          "In-visit eviction/re-fetch is exercised on the implementation (cache states), not in the pure visit model."),
  "C07": ("Coq proof: Store.Flush on bytes with ONE failing WriteAt call at any call number and any torn length (DiskFault.flush_fault): it fails, damages nothing durable, leaves contents and representation intact, and the retried Flush produces exactly the file of a Flush that never failed; over whole histories failed Flush calls anywhere are invisible to every completed call (DFaultRefine: C02's refinement generalised to dirty stores; the two excluded situations are proved necessary and are the known finding / the documented no-roots error); a key-only lookup with a failing ReadAt and its retry (LazyFault); a failed mutation restores the reclaim marks (Proto.v); order of effects in the source regenerated on every run (Decisions.v). Tie: fault enumeration on the implementation — every file call k of chosen API calls made to fail (writes torn) — with byte-exact comparison of the file after every failed and completed Flush against the fault model, exact ReadAt lists of failed lookups and their retries against LazyFault, and the model-free oracles for all other calls",
          "Theorems for every call number, torn length and history (side conditions boolean, evaluated on the runs); for each enumerated fault on the implementation: error returned, no panic/hang, durable bytes unchanged, contents equal pre-fault reference, fresh Store on the image shows the last Flush, heap-dump invariant (no stale reclaim marks), fault-free continuation matches the reference, file bytes / read lists equal to the fault models.",
          "Known findings: Exist/ExistAny cannot report errors; FlushRevert right after a partially written failed Flush. Fault positions are enumerated per call, not per history exhaustively in quick tier."),
- "C08": ("Coq proof: the modelled backward scan / revert terminates for every file (fuel bound proved) and returns the previous valid root; history-level refinement of the byte-level store (runs of reverts, also past the first flush); the necessary side condition (no committed value that is itself a position-consistent root record) is proved necessary by a refutation witness, replayed on the implementation (known finding); differential on histories with 0..many flushes and runs of reverts, byte-exact file comparison, watchdog for termination",
+ "C08": ("Coq proof: the modelled backward scan / revert terminates for every file (fuel bound proved) and returns the previous valid root; history-level refinement of the byte-level store (runs of reverts, also past the first flush); the necessary side condition (no committed value that is itself a position-consistent root record) is proved necessary by a refutation witness, replayed on the implementation (known finding); differential on histories with 0..many flushes and runs of reverts, byte-exact file comparison, watchdog for termination; the decisions, call orders and call sites of the source that the model rests on are proved from function bodies regenerated from the Go source on every run (Dec*.v)",
          "Termination and walk-back proved on the scan model for all files and over whole histories; histories compare contents, names, file length, file bytes and a re-open of the image after every revert.",
          "The scan model follows store.go readRootsScan/scanBackwardsForMagicEnd byte for byte on lists of bytes. Known finding value-is-valid-root-record (format has no escaping/checksum)."),
  "C09": ("Coq proof over the call graph regenerated from the Go source on every run (closure certificate checked in Coq: no path from read-only entry points to a writer; exact set of write sites) + monitor on every WriteAt/Truncate the implementation issues",
          "Static theorem is re-checked against the current source on every run; the write/truncate log of every history of every check is checked against the append discipline.",
          "Translator (go/parser+go/types, over-approximating call graph) is trusted; CopyTo destination writes excluded statically, covered dynamically."),
- "C10": ("Coq proof: proto_safe — no cell of a live version's tree is ever freed, for every sequence of valid protocol actions (Proto.v, std++); tie: model-free heap-dump invariant after every step + contents after forced reuse",
+ "C10": ("Coq proof: proto_safe — no cell of a live version's tree is ever freed, for every sequence of valid protocol actions (Proto.v, std++); tie: model-free heap-dump invariant after every step + contents after forced reuse; the decisions, call orders and call sites of the source that the model rests on are proved from function bodies regenerated from the Go source on every run (Dec*.v)",
          "Invariant over arbitrary action sequences covers every order of acquire/release; implementation checked after every step for freed-but-reachable nodes and stale marks, with unrelated allocation forcing reuse.",
          "Protocol model abstracts nodes to ids; its actions are matched to the code by the heap-dump monitors, not by proof."),
  "C11": ("Coq proof: copy = fold of insert over the ascending visit yields the same sorted list, shape and aggregates (uses C06+C01 lemmas); on bytes, CopyTo as the history of calls it makes on the destination store (CopyRun: all calls succeed, the destination holds exactly the source's collections and items, nothing left unflushed, the byte-level store agrees); flush schedule and structure regenerated from the source; tie: the destination file of every copy compared byte for byte with the model's, sources (writable, snapshot, re-opened) x flushEvery values, destination decoded by the Coq decoder (each key once), one transient destination fault at every call position",
          "Theorems for every source meeting src_ok and every flushEvery; destination contents, re-open, compactness and file bytes checked per case.",
          "CopyTo's interleaved EvictSomeItems/Flush calls are exercised on the implementation."),
- "C12": ("Coq proof: collection-map laws of Store.step (new empty, existing keeps items, remove+create empty, names sorted, others untouched) + differential on histories with flushes and re-opens",
+ "C12": ("Coq proof: collection-map laws of Store.step (new empty, existing keeps items, remove+create empty, names sorted, others untouched) + differential on histories with flushes and re-opens; the decisions, call orders and call sites of the source that the model rests on are proved from function bodies regenerated from the Go source on every run (Dec*.v)",
          "Laws proved on the store model; names and full contents compared after every step and after re-open of the image.",
          "Collection names that are not valid UTF-8 are a known limitation of the JSON root record (D6)."),
- "C13": ("Coq proof: bst and exact aggregates preserved by every operation, heap order preserved unless a key is overwritten with a lower priority (counter-example proved), treap_unique (shape determined by contents when priorities are distinct); tie: implementation's own tree checked after every step, depths vs model, exhaustive insertion orders x rankings for small key sets",
+ "C13": ("Coq proof: bst and exact aggregates preserved by every operation, heap order preserved unless a key is overwritten with a lower priority (counter-example proved), treap_unique (shape determined by contents when priorities are distinct); tie: implementation's own tree checked after every step, depths vs model, exhaustive insertion orders x rankings for small key sets; the decisions, call orders and call sites of the source that the model rests on are proved from function bodies regenerated from the Go source on every run (Dec*.v)",
          "Invariants proved for all trees; canonical shape theorem; implementation's cached tree and persisted records checked.",
          "Persisted aggregates are checked by the extracted decoder on the implementation's files."),
  "C14": ("Coq proof: codec round trips (item, node, root record) and layout constants regenerated from the Go source equal the v4 layout; tie: the extracted Coq decoder (no code shared with gkvlite) decodes every file the implementation flushes and the result is compared with the reference state",
          "Layout obligation re-checked against the source on every run; decoder runs on real files of all key/value sizes and name sets.",
          "JSON of the root record modelled for gkvlite's canonical output."),
- "C15": ("Coq proof: reference-count bookkeeping model (count = owners) + callback-log oracle: per-item counts never negative, positive while reachable or handed out, zero after everything is closed",
+ "C15": ("Coq proof: reference-count bookkeeping model (count = owners) + callback-log oracle: per-item counts never negative, positive while reachable or handed out, zero after everything is closed; the decisions, call orders and call sites of the source that the model rests on are proved from function bodies regenerated from the Go source on every run (Dec*.v)",
          "Counts tracked through the real callbacks on seeded histories incl. snapshots and closes in varying order.",
          "Known finding: Get/GetAny keep a reference the caller cannot release (probed separately)."),
- "C16": ("Coq proof: block arithmetic and the two-pass block visit / random visit deliver a permutation of the items for every n; tie: exhaustive small n and sizes around k*1024 on the implementation",
+ "C16": ("Coq proof: block arithmetic and the two-pass block visit / random visit deliver a permutation of the items for every n; tie: exhaustive small n and sizes around k*1024 on the implementation; the decisions, call orders and call sites of the source that the model rests on are proved from function bodies regenerated from the Go source on every run (Dec*.v)",
          "All n in 0..70 and around 1024/2048/3072 per run (thorough: 0..300, k<=5); every item exactly once under five block manglers.",
          "math/rand's shuffle is taken as an arbitrary permutation."),
- "C17": ("the C01/C02/C06/C14 correspondences re-run under every subset (quick: none, all, each alone) of behaviourally neutral callbacks; Coq: the models are independent of the callbacks by construction (neutrality = identity on the modelled observables)",
+ "C17": ("the C01/C02/C06/C14 correspondences re-run under every subset (quick: none, all, each alone) of behaviourally neutral callbacks; Coq: the models are independent of the callbacks by construction (neutrality = identity on the modelled observables); the decisions, call orders and call sites of the source that the model rests on are proved from function bodies regenerated from the Go source on every run (Dec*.v)",
          "Same histories, same expected observations, with callbacks installed; chunked value reader/writer.",
          "Neutrality of the harness's callbacks is by inspection."),
- "C18": ("Coq proof: iterator handshake LTS (consumer/producer/two rendezvous channels) terminates with the producer exited for every n, command list and schedule; tie: goroutine exit and pin release observed on the implementation for all stop positions; nested calls in visitors with watchdog",
+ "C18": ("Coq proof: iterator handshake LTS (consumer/producer/two rendezvous channels) terminates with the producer exited for every n, command list and schedule; tie: goroutine exit and pin release observed on the implementation for all stop positions; nested calls in visitors with watchdog; the decisions, call orders and call sites of the source that the model rests on are proved from function bodies regenerated from the Go source on every run (Dec*.v)",
          "Partial: the LTS abstracts Go channels and scheduling; goroutine exit is observed, not proved, on the implementation.",
          "Go runtime semantics of channels assumed as in the LTS."),
  "C19": ("Coq proof over the read-event models: NewStore reads the root record only; GetItem/MinItem/MaxItem/visits (Lazy.v) and SetItem/Delete (LazyMut.v: union/split/join/numInfo instrumented with every record they touch, proved to compute the same trees) read node records, item headers and keys only, for any cache state; the reload rule of itemLoc.read regenerated from the source (Decisions.v). Tie: the EXACT list of ReadAt calls of every NewStore and of the first lookup, visit, SetItem or Delete after it equals the model's; model-free oracle: every ReadAt of every key-only call intersected with all value byte ranges",
